@@ -144,7 +144,7 @@ class Module(object):
             self.raw_tree = ast.parse(src, filename=path)
             self.tree = self.raw_tree
             self.n_inlined = 0
-            if do_inline and ("def _" in src or " for " in src):
+            if do_inline and ("def " in src):
                 from sa.inline import inline_tree
                 t2, n = inline_tree(self.raw_tree, no_inline)
                 if n:
